@@ -7,7 +7,12 @@ use crate::sync_util;
 
 use std::cell::Cell;
 use std::marker::PhantomData;
+#[cfg(not(excsn_fibre_verif))]
 use std::time::{Duration, Instant};
+#[cfg(excsn_fibre_verif)]
+use std::time::Duration;
+#[cfg(excsn_fibre_verif)]
+use fibre_verif_rt::time::Instant;
 
 use crate::internal::sync::{hint, thread, Arc, AtomicBool, Ordering};
 
